@@ -12,6 +12,7 @@ same class and size, so the result must not depend on the path taken.
 import copy
 import gc
 import inspect
+import sys
 
 import numpy as np
 
@@ -43,6 +44,29 @@ PROPS = ['stabilizer_matrix', 'Hx', 'Hz', 'logicals_x', 'logicals_z',
          'qubit_index', 'stabilizer_index', 'n_stabilizers',
          'qubit_coordinates', 'stabilizer_coordinates']
 DIRS = [(1/3, 1/3, 1/3), (0.1, 0.2, 0.7), (0.0, 0.0, 1.0), (0.6, 0.3, 0.1)]
+
+
+class AccessTracer:
+    """Ctrl-C at the j-th traced line inside panqec/codes/* or bsparse while a
+    lazily cached property is being built."""
+
+    PREFIX = (seams.REPO + 'codes' + '/', seams.REPO + 'bsparse.py')
+
+    def __init__(self, ki_at):
+        self.ki_at = ki_at
+        self.n = 0
+
+    def _g(self, frame, event, arg):
+        if frame.f_code.co_filename.startswith(self.PREFIX):
+            return self._l
+        return None
+
+    def _l(self, frame, event, arg):
+        if event == 'line':
+            self.n += 1
+            if self.n == self.ki_at:
+                raise KeyboardInterrupt()
+        return self._l
 
 
 def code_class(name):
@@ -236,7 +260,16 @@ def gen_history(seed, cname=None, size=None):
             ops.append({'op': 'deform', 'name': name, 'kwargs': kw})
         elif r < 0.7:
             k = rng.randint(1, 4)
-            ops.append({'op': 'access', 'props': rng.sample(PROPS, k)})
+            op = {'op': 'access', 'props': rng.sample(PROPS, k)}
+            if rng.random() < 0.25:
+                # Ctrl-C while the (first) property is being built
+                op['props'] = [rng.choice(['stabilizer_matrix', 'logicals_x',
+                                           'logicals_z', 'Hx', 'Hz'])] \
+                    + op['props'][1:]
+                op['ki_line'] = rng.choice([rng.randint(1, 40),
+                                            rng.randint(1, 400),
+                                            rng.randint(1, 4000)])
+            ops.append(op)
         elif r < 0.92:
             name, kw = rng.choice(choices + [(None, {})])
             ops.append({'op': 'noise', 'name': name, 'kwargs': kw,
@@ -294,6 +327,7 @@ def execute_here(plan, keep_events=False):
         cur = (None, {})
         hist = []
         noises = []
+        dirty = False
         for oi, op in enumerate(plan['ops']):
             kind = op['op']
             sim.log.add(proc.pid, 'op', [oi, kind, op.get('name'),
@@ -301,15 +335,35 @@ def execute_here(plan, keep_events=False):
             try:
                 if kind == 'deform':
                     obj.deform(op['name'], **op['kwargs'])
+                    if dirty:
+                        sim.probe('deform_after_interrupted_property_build')
+                    dirty = False
                     cur = (op['name'], op['kwargs'])
                     hist.append([op['name'], op['kwargs']])
                     if len(hist) > 1:
                         sim.probe('redeform_of_deformed_object')
                 elif kind == 'access':
-                    for p in op['props']:
-                        if p in ('Hx', 'Hz') and not obj.is_css:
-                            continue
-                        getattr(obj, p)
+                    tr = None
+                    if op.get('ki_line') is not None:
+                        tr = AccessTracer(op['ki_line'])
+                        sys.settrace(tr._g)
+                    try:
+                        try:
+                            for p in op['props']:
+                                if p in ('Hx', 'Hz') and not obj.is_css:
+                                    continue
+                                getattr(obj, p)
+                        finally:
+                            if tr is not None:
+                                sys.settrace(None)
+                    except KeyboardInterrupt:
+                        # the user catches it and goes on with the object;
+                        # what a half-built lazy cache looks like until the
+                        # next deform() is not C08's subject, what deform()
+                        # makes of it is
+                        dirty = True
+                        sim.count_fault('ki:inside_property_build')
+                        continue
                 elif kind == 'noise':
                     from panqec.error_models import PauliErrorModel
                     nm = PauliErrorModel(
@@ -324,10 +378,19 @@ def execute_here(plan, keep_events=False):
                     gc.collect()
                     continue
             except Exception as e:
+                if dirty and kind in ('access', 'noise'):
+                    # a half-built lazy cache (interrupted build, no deform
+                    # since) may well make other accessors fail: observed on
+                    # the unchanged tree, outside C08's statement, counted
+                    sim.probe('access_fails_on_half_built_cache_'
+                              + type(e).__name__)
+                    continue
                 violate('operation_raised', {
                     'op': kind, 'exc': type(e).__name__,
                     'msg': str(e)[:200], 'history': hist})
                 break
+            if dirty:
+                continue
             try:
                 bad = compare(model, obj, cur, noises, sim)
             except HarnessError:
@@ -352,7 +415,111 @@ def execute_here(plan, keep_events=False):
 
 def execute(plan, **kw):
     """One plan = one simulated process image: run in a forked child."""
+    if plan.get('kind') == 'noise_scan':
+        return runner.isolated(noise_scan_here, plan, **kw)
     return runner.isolated(execute_here, plan, **kw)
+
+
+def noise_scan_here(plan, keep_events=False):
+    """One deformed noise model used over a sequence of code objects that
+    are created and dropped one after the other (a size / lattice scan): the
+    table it returns for each must be the relabelled channel of *that* code,
+    whatever was evaluated - and freed - before."""
+    from panqec.error_models import PauliErrorModel
+    sim = Sim(plan['seed'], keep_events=keep_events)
+    violations = []
+    proc = sim.new_proc('scan')
+    kernel.set_current(proc)
+    n_tab = 0
+    try:
+        seams.clear_caches()
+        rx, ry, rz = plan['direction']
+        p = plan['p']
+        nm = PauliErrorModel(rx, ry, rz, deformation_name=plan['name'],
+                             deformation_kwargs=dict(plan['kwargs']))
+        base = {'X': p * rx, 'Y': p * ry, 'Z': p * rz}
+        for idx, (cname, size) in enumerate(plan['codes']):
+            cls = code_class(cname)
+            try:
+                code = cls(*size)
+                ref = cls(*size)        # separate instance for the oracle
+                D = [dict(ref.get_deformation(tuple(q), plan['name'],
+                                              **plan['kwargs']))
+                     for q in ref.qubit_coordinates]
+            except Exception as e:
+                sim.probe('unsupported_size_' + type(e).__name__)
+                continue
+            try:
+                pi, px, py, pz = nm.probability_distribution(code, p)
+            except Exception as e:
+                violations.append({'class': 'operation_raised', 'detail': {
+                    'code': cname, 'size': size, 'op': 'noise_scan',
+                    'exc': type(e).__name__, 'msg': str(e)[:160]}})
+                break
+            got = {'X': px, 'Y': py, 'Z': pz}
+            bad = None
+            if len(pi) != ref.n:
+                bad = {'length': len(pi), 'n': ref.n}
+            else:
+                for i in range(ref.n):
+                    for s_ in 'XYZ':
+                        if abs(float(got[s_][i]) - base[D[i][s_]]) > 1e-12:
+                            bad = {'qubit': i, 'pauli': s_}
+                            break
+                    if bad:
+                        break
+            n_tab += 1
+            sim.log.add(proc.pid, 'scan', [idx, cname, size, bad])
+            if bad:
+                bad.update({'code': cname, 'size': size,
+                            'position_in_scan': idx,
+                            'noise_deformation': [plan['name'],
+                                                  plan['kwargs']]})
+                violations.append({
+                    'class': 'deformed_noise_is_not_relabelled_noise',
+                    'detail': bad})
+                break
+            del code, ref, pi, px, py, pz, got
+            if plan.get('collect'):
+                gc.collect()
+        sim.probe('noise_scan_over_dropped_code_objects', n_tab)
+    finally:
+        kernel.set_current(None)
+    return {'violations': violations, 'fingerprint': sim.log.fingerprint(),
+            'states': [digest(['scan', plan['name'], plan['kwargs'],
+                               plan['codes']])],
+            'fault_counts': sim.fault_counts, 'probes': sim.probes,
+            'n_checks': n_tab}
+
+
+SCAN_POOL = {
+    # XZZX: classes that take an axis, grouped so that equal n occurs
+    'XZZX': [('Toric2DCode', [2, 5]), ('Planar2DCode', [2, 7]),
+             ('RotatedPlanar2DCode', [4, 5]), ('Toric2DCode', [5, 2]),
+             ('Toric2DCode', [3, 3]), ('RotatedPlanar2DCode', [3, 6]),
+             ('Planar2DCode', [3, 3]), ('Toric2DCode', [2, 2]),
+             ('Toric2DCode', [4, 2]), ('RotatedPlanar2DCode', [4, 4]),
+             ('Toric2DCode', [2, 4]), ('Planar2DCode', [4, 2]),
+             ('Toric3DCode', [2, 2, 2]), ('Planar3DCode', [2, 2, 3])],
+}
+
+
+def gen_noise_scan(seed):
+    rng = stream(seed, 'scan')
+    codes = [list(map(lambda x: x, c)) for c in rng.sample(
+        SCAN_POOL['XZZX'], rng.randint(3, 7))]
+    if rng.random() < 0.5:
+        codes = codes + [codes[0]]
+    two_d = all(len(c[1]) == 2 for c in codes)
+    axes = ['x', 'y'] if two_d else ['x', 'y']
+    kw = {} if rng.random() < 0.3 else {
+        'deformation_axis': rng.choice(axes)}
+    return {'property': PROP, 'kind': 'noise_scan', 'seed': seed,
+            'name': 'XZZX', 'kwargs': kw,
+            'codes': [[c[0], list(c[1])] for c in codes],
+            'direction': list(rng.choice(DIRS[1:])),
+            'p': rng.choice([0.05, 0.3]),
+            'collect': rng.random() < 0.5}
 
 
 def _out(sim, violations, states, n):
@@ -531,6 +698,11 @@ def make_jobs(tier, seed):
     for b in range(n // per):
         jobs.append({'plans': [gen_history(H(seed, PROP, 'h', b * per + i))
                                for i in range(per)]})
+    n_scan = 160 if tier == 'quick' else 4000
+    for b in range(n_scan // 8):
+        jobs.append({'plans': [gen_noise_scan(H(seed, PROP, 'scan',
+                                                b * 8 + i))
+                               for i in range(8)]})
     return jobs
 
 
@@ -541,18 +713,22 @@ def run_job(job):
         o = execute(plan)
         summ['runs'] += 1
         summ['checks'] += o['n_checks']
-        summ['ops'] += len(plan['ops'])
+        summ['ops'] += len(plan.get('ops') or plan.get('codes') or [])
         summ['states'].update(o['states'])
         for k, v in o['probes'].items():
             summ['probes'][k] = summ['probes'].get(k, 0) + v
         for k, v in o['fault_counts'].items():
             summ['fault_counts'][k] = summ['fault_counts'].get(k, 0) + v
         if not summ['samples']:
-            summ['samples'].append({
-                'code': plan['code'], 'size': plan['size'],
-                'ops': [[o_['op'], o_.get('name'), o_.get('kwargs'),
-                         o_.get('props')] for o_ in plan['ops']][:8],
-                'states_compared': o['n_checks']})
+            if plan.get('kind') == 'noise_scan':
+                summ['samples'].append({k: plan[k] for k in (
+                    'kind', 'name', 'kwargs', 'codes', 'direction', 'p')})
+            else:
+                summ['samples'].append({
+                    'code': plan['code'], 'size': plan['size'],
+                    'ops': [[o_['op'], o_.get('name'), o_.get('kwargs'),
+                             o_.get('props')] for o_ in plan['ops']][:8],
+                    'states_compared': o['n_checks']})
         for v in o['violations']:
             key = canon(signature(plan, v))
             if key not in seen:
@@ -593,6 +769,8 @@ def signature(plan, v):
 
 
 def shrink(plan, want_sig, max_exec=120):
+    if plan.get('kind') == 'noise_scan':
+        return plan, 0
     best = copy.deepcopy(plan)
     n_exec = [0]
 
